@@ -1006,6 +1006,11 @@ func (h *rlyHist) stepOnce() {
 	c := h.c
 	live := h.liveTunnels()
 	r := c.Intn(100)
+	if !h.w.Am() && len(live) > 0 && c.Chance(0.15) {
+		// an initiator: ask a known peer to relay
+		h.start(h.tuns[live[c.Intn(len(live))]].addrs[0], h.poolAddr())
+		return
+	}
 	switch {
 	case len(h.tuns) == 0 || (r < 10 && len(h.tuns) < 9):
 		n := 1
@@ -1051,6 +1056,8 @@ func (h *rlyHist) stepOnce() {
 			q.tun = c.Intn(len(h.tuns)) // replayed on another tunnel
 		}
 		h.deliver(q.tun, q.wire, "duplicate")
+	case r < 68 && len(h.tuns) >= 2:
+		h.crossResponse()
 	case r < 78 && len(h.tuns) > 0:
 		// hostile / confused: anything on any tunnel, dead ones included
 		t := c.Intn(len(h.tuns))
@@ -1087,11 +1094,7 @@ func (h *rlyHist) stepOnce() {
 		h.observe(hx.App("OSetAm", hx.Bool(am)), nebula.VerifRelayOut{}, fmt.Sprintf("am_relay=%v", am))
 		h.kinds["setam"]++
 	case r < 96:
-		relay, vpn := h.poolAddr(), h.poolAddr()
-		script := h.script()
-		out := h.w.Start(relay, vpn, script)
-		h.observe(hx.App("OStart", rlyAddr(relay), rlyAddr(vpn), rlyU32s(rlyStream(script, out.Served))), out, fmt.Sprintf("start relay=%s vpn=%s", relay, vpn))
-		h.kinds["start"]++
+		h.start(h.poolAddr(), h.poolAddr())
 	default:
 		if len(h.tuns) == 0 {
 			return
@@ -1102,6 +1105,142 @@ func (h *rlyHist) stepOnce() {
 		h.observe(hx.App("OVia", hx.N(uint64(t)), rlyAddr(ip)), nebula.VerifRelayOut{}, fmt.Sprintf("via %d %s", t, ip))
 		h.kinds["via"]++
 	}
+}
+
+func (h *rlyHist) start(relay, vpn netip.Addr) nebula.VerifRelayOut {
+	script := h.script()
+	out := h.w.Start(relay, vpn, script)
+	h.observe(hx.App("OStart", rlyAddr(relay), rlyAddr(vpn), rlyU32s(rlyStream(script, out.Served))), out, fmt.Sprintf("start relay=%s vpn=%s", relay, vpn))
+	h.kinds["start"]++
+	return out
+}
+
+func (h *rlyHist) del(t int) {
+	h.w.DelTunnel(t)
+	h.tuns[t].dead = true
+	h.observe(hx.App("ODel", hx.N(uint64(t))), nebula.VerifRelayOut{}, fmt.Sprintf("delete %d", t))
+	h.kinds["delete"]++
+}
+
+func (h *rlyHist) via(t int, ip netip.Addr) {
+	h.w.InsertVia(t, ip)
+	h.observe(hx.App("OVia", hx.N(uint64(t)), rlyAddr(ip)), nebula.VerifRelayOut{}, fmt.Sprintf("via %d %s", t, ip))
+	h.kinds["via"]++
+}
+
+// crossResponse: a well-formed CreateRelayResponse naming a relay index that belongs to ANOTHER peer's tunnel (by
+// preference a leg that is still Requested or Disestablished), received over a different tunnel.
+func (h *rlyHist) crossResponse() {
+	c := h.c
+	d := h.w.Dump()
+	type cand struct {
+		q   int
+		rec nebula.VerifRelayRec
+	}
+	var waiting, others []cand
+	for q, t := range d.Tunnels {
+		for _, r := range t.Recs {
+			if r.State == nebula.VerifRelayRequested || r.State == nebula.VerifRelayDisestablished {
+				waiting = append(waiting, cand{q, r})
+			} else {
+				others = append(others, cand{q, r})
+			}
+		}
+	}
+	pool := waiting
+	if len(pool) == 0 || (len(others) > 0 && c.Chance(0.15)) {
+		pool = others
+	}
+	if len(pool) == 0 {
+		h.deliver(c.Intn(len(h.tuns)), h.mkWire(nebula.VerifRelayCtlResponse, h.anyAddr(), h.anyAddr(), h.someIndex(), h.someIndex(), c.Chance(0.4)), "hostile")
+		return
+	}
+	x := pool[c.Intn(len(pool))]
+	// the sender: another tunnel, live by preference
+	var senders []int
+	for _, p := range h.liveTunnels() {
+		if p != x.q {
+			senders = append(senders, p)
+		}
+	}
+	if len(senders) == 0 || c.Chance(0.1) {
+		senders = nil
+		for p := range h.tuns {
+			if p != x.q {
+				senders = append(senders, p)
+			}
+		}
+	}
+	p := senders[c.Intn(len(senders))]
+	// plausible addresses: what the owner of the leg would have written, or the sender's own
+	from, to := x.rec.Peer, h.tuns[x.q].addrs[0]
+	switch c.Intn(4) {
+	case 0:
+		from, to = h.tuns[p].addrs[0], x.rec.Peer
+	case 1:
+		to = h.tuns[p].addrs[0]
+	case 2:
+		from, to = h.tuns[x.q].addrs[0], x.rec.Peer
+	}
+	h.deliver(p, h.mkWire(nebula.VerifRelayCtlResponse, from, to, x.rec.Local, uint32(300000+c.Intn(60000)), c.Chance(0.4)), "cross-response")
+}
+
+// scripted: a third peer answers for a leg that is not its own - on a relay (target leg Requested / Disestablished)
+// and on an initiator (terminal record Requested / Disestablished)
+func rlyCross(c *hx.Ctx, variant int) *rlyHist {
+	relayNode := variant < 2
+	h := rlyNewHist(c, []netip.Addr{rlyV4(1)}, relayNode)
+	idxOf := func(t int, peer netip.Addr) (uint32, bool) {
+		d := h.w.Dump()
+		if r := rlyFindRec(d.Tunnels[t], peer); r != nil {
+			return r.Local, true
+		}
+		return 0, false
+	}
+	drain := func() {
+		for len(h.queue) > 0 {
+			q := h.queue[0]
+			h.queue = h.queue[1:]
+			h.deliver(q.tun, q.wire, "reply")
+		}
+	}
+	if relayNode {
+		i := h.addTunnel([]netip.Addr{rlyV4(2)}, 11, true, false)
+		t := h.addTunnel([]netip.Addr{rlyV4(3)}, 12, true, false)
+		x := h.addTunnel([]netip.Addr{rlyV4(4)}, 13, true, false)
+		h.deliver(i, h.mkWire(nebula.VerifRelayCtlRequest, rlyV4(2), rlyV4(3), 501, 0, false), "request")
+		if variant == 0 {
+			h.queue = nil // the target never answers
+		} else {
+			drain()
+			h.del(i) // the target leg goes Disestablished
+			i = h.addTunnel([]netip.Addr{rlyV4(2)}, 14, true, false)
+		}
+		if idx, ok := idxOf(t, rlyV4(2)); ok {
+			h.deliver(x, h.mkWire(nebula.VerifRelayCtlResponse, rlyV4(2), rlyV4(3), idx, 901, false), "cross-response")
+			h.deliver(x, h.mkWire(nebula.VerifRelayCtlResponse, rlyV4(4), rlyV4(2), idx, 902, false), "cross-response")
+			h.deliver(i, h.mkWire(nebula.VerifRelayCtlResponse, rlyV4(2), rlyV4(3), idx, 903, false), "cross-response")
+		}
+		h.queue = nil
+		return h
+	}
+	// initiator: this node asks 10.0.0.2 to relay towards 10.0.0.3
+	r := h.addTunnel([]netip.Addr{rlyV4(2)}, 11, true, false)
+	x := h.addTunnel([]netip.Addr{rlyV4(4)}, 13, true, false)
+	h.start(rlyV4(2), rlyV4(3))
+	idx, ok := idxOf(r, rlyV4(3))
+	if variant == 3 && ok {
+		h.deliver(r, h.mkWire(nebula.VerifRelayCtlResponse, rlyV4(1), rlyV4(3), idx, 801, false), "reply")
+		v := h.addTunnel([]netip.Addr{rlyV4(3)}, 15, false, false) // reached through the relay only
+		h.via(v, rlyV4(2))
+		h.del(v) // the terminal record goes Disestablished
+	}
+	if ok {
+		h.deliver(x, h.mkWire(nebula.VerifRelayCtlResponse, rlyV4(1), rlyV4(3), idx, 904, false), "cross-response")
+		h.deliver(x, h.mkWire(nebula.VerifRelayCtlResponse, rlyV4(4), rlyV4(1), idx, 905, false), "cross-response")
+	}
+	h.queue = nil
+	return h
 }
 
 func rlyNewHist(c *hx.Ctx, me []netip.Addr, am bool) *rlyHist {
@@ -1216,6 +1355,9 @@ func runRelay(c *hx.Ctx) {
 		}
 	}
 	add(rlySelf(c), true, "self-relay", true)
+	for v := 0; v < 4; v++ {
+		add(rlyCross(c, v), v < 2, "scripted-cross", true)
+	}
 	// 3. random histories
 	deepHist := 0
 	for i := 0; i < c.N; i++ {
@@ -1223,11 +1365,11 @@ func runRelay(c *hx.Ctx) {
 		if c.Chance(0.3) {
 			me = append(me, rlyV6(1))
 		}
-		am := c.Chance(0.85)
+		am := c.Chance(0.75)
 		h := rlyNewHist(c, me, am)
 		n := 10 + c.Intn(18)
 		// start with a few tunnels so that most messages reach the deep branches
-		for k := 0; k < 2+c.Intn(2); k++ {
+		for k := 0; k < 3+c.Intn(2); k++ {
 			h.addTunnel([]netip.Addr{h.poolAddr()}, uint32(10+c.Intn(5000)), true, c.Chance(0.3))
 		}
 		for len(h.steps) < n {
@@ -1247,5 +1389,5 @@ func runRelay(c *hx.Ctx) {
 		cw.Meta("failures", failures)
 	}
 	cw.Meta("histories_with_forwarding", deepHist)
-	cw.Close("every row of the request / response tables on a fresh concrete situation; scripted three-party set-ups (v1/v2, duplicate request, target loss and re-establishment), a self-relay; random histories of 10..27 steps: tunnel add/delete (index collisions, dead tunnels), honest requests, peers' replies (85 %), requests to this node, duplicates / replays on other tunnels, hostile messages (arbitrary addresses incl. own, stale / foreign indexes, absent fields, unknown types), am_relay reloads, StartRelays, InsertRelayTo; scripted crypto/rand (zero and colliding candidates). non-trivial = at least two control messages were answered or passed on; distinct by literal")
+	cw.Close("every row of the request / response tables on a fresh concrete situation; scripted three-party set-ups (v1/v2, duplicate request, target loss and re-establishment), a self-relay, a third peer answering for a leg that is not its own (relay: target leg Requested / Disestablished; initiator: terminal record Requested / Disestablished); random histories of 10..27 steps on relays (75 %) and initiators with >= 3 peers: tunnel add/delete (index collisions, dead tunnels), honest requests, peers' replies (85 %), requests to this node, duplicates / replays on other tunnels, cross-responses (8 %: a well-formed CreateRelayResponse naming an index of another peer's tunnel, by preference a Requested / Disestablished leg, over a different tunnel), hostile messages (arbitrary addresses incl. own, stale / foreign indexes, absent fields, unknown types), am_relay reloads, StartRelays, InsertRelayTo; scripted crypto/rand (zero and colliding candidates). non-trivial = at least two control messages were answered or passed on; distinct by literal")
 }
